@@ -31,7 +31,7 @@ func CreatePropellerUnits(
 		return nil, fmt.Errorf("encoding the message: %w", err)
 	}
 
-	merkleRoot, merkleTree := merkle.New(encodedMessage)
+	merkleRoot, merkleTree := merkle.New(merkleLeaves(encodedMessage))
 	messageRoot := MessageRoot(merkleRoot)
 
 	signature, err := SignMessage(privKey, &messageRoot, committeeID, nonce)
@@ -54,6 +54,16 @@ func CreatePropellerUnits(
 		}
 	}
 	return units, nil
+}
+
+// merkleLeaves returns the Merkle leaf of every unit: the proto encoding of the shard data the
+// unit carries, which is what UnitValidator verifies a unit's proof against.
+func merkleLeaves(shards [][]byte) [][]byte {
+	leaves := make([][]byte, len(shards))
+	for i, shard := range shards {
+		leaves[i] = ShardData{shard}.MarshalProto()
+	}
+	return leaves
 }
 
 // ConstructMessageFromUnits receives Propeller units, recovers any missing data and returns
@@ -94,7 +104,7 @@ func ConstructMessageFromUnits(
 		}
 	}
 
-	merkleRoot, merkleTree := merkle.New(shards)
+	merkleRoot, merkleTree := merkle.New(merkleLeaves(shards))
 
 	// Every received unit carries the signed message root; shard 0 may be among the missing ones.
 	var messageRoot MessageRoot
